@@ -18,6 +18,18 @@ CHECKS = {
             "DESIGN.md §C08"),
 }
 
+CHECKS["C03"] = ("bfs+sweep (worker subprocesses)", "model_checking",
+    "explicit-state exploration of decoder states + exhaustive string/partition enumeration against a DFA-acceptance reference tokeniser",
+    "Every reachable state of the two production decoders with a buffer of at most B bytes over a representative alphabet "
+    "(one byte per class of the production DFA that matters structurally) is visited and from each every continuation of length <= 2 (3) "
+    "is fed whole, byte by byte and with empty reads; all strings up to length 4-5 over the alphabet (and all byte strings up to length 2-3) "
+    "are decoded under ALL partitions into reads; the incremental tokeniser core is instantiated (hook H1) over every set of up to 2 (3) "
+    "patterns from a pool of 14 and run on every input over {a,b,c} up to length 7 (8) under all partitions. Each execution is compared with "
+    "the others (same events, same final state) and with a reference leftmost-longest tokenisation computed from per-prefix acceptance of "
+    "the DFA (production) / from regular-expression derivatives (pattern sets). States/transitions are those of the real decoder.",
+    "Reference garbage grouping follows the library (statement silent); what a recognised token decodes to is C04; buffers longer than the bound and alphabets beyond the representatives are not explored.",
+    "DESIGN.md §C03")
+
 PENDING = {}
 ALL = ["C%02d" % i for i in range(1, 21)]
 
